@@ -262,7 +262,7 @@ impl Request {
         
         self.path.init_with_request_bytes(r.read_while(|b| !matches!(b, b' ' | b'?')))?;
 
-        if r.consume_oneof([" ", "?"]).unwrap() == 1 {
+        if r.consume_oneof([" ", "?"]).ok_or_else(Response::BadRequest)? == 1 {
             self.query = QueryParams::new(r.read_while(|b| b != &b' '));
             r.advance_by(1);
         }
